@@ -50,7 +50,7 @@ func judge(out *pipe.Outcome, ix *pipe.Index) pipe.Verdict {
 	v.Violations = vs
 	v.AddJudged("acks_in_order_", j)
 	v.Nontrivial = j.Obligations >= 5
-	v.SigExtra = pipe.CompletionOrderSig(out.Evs)
+	v.SigExtra = pipe.CompletionOrderClass(out.Evs)
 	v.Sets = map[string][]string{"completion_orders": {pipe.CompletionOrderSig(out.Evs)}}
 	return v
 }
